@@ -40,7 +40,7 @@ func errorFamilySteps() []*Expr {
 		sKey("a"), sKey("zz"), sAnyArray(), sAnyKey(), sIndex(sub1(eInt(0))), sIndex(sub1(eInt(5))), sIndex(sub1(eInt(0)), sub1(eInt(1))), sIndex(sub1(eVar("missing"))),
 		sAny(0, -1),
 		sMethod("double"), sMethod("integer"), sMethod("size"), sMethod("keyvalue"), sMethod("type"),
-		sDecimal(i64(0), nil), sDecimal(i64(1), i64(1001)), sDecimal(i64(1), i64(0)), sDecimal(i64(2147483648), nil), sDecimal(i64(5), i64(-2147483649)),
+		sDecimal(i64(0), nil), sDecimal(i64(1), i64(1001)), sDecimal(i64(1), i64(0)), sDecimal(i64(2147483648), nil), sDecimal(i64(5), i64(-2147483649)), sDecimal(i64(2147483647), nil), sDecimal(i64(5), i64(-2147483648)), sDecimal(i64(5), i64(2147483647)),
 		sDT("timestamp_tz", nil), sDT("date", nil), {K: KDT, S: "datetime", T: &tpl}, sDT("datetime", nil),
 		sFilter(eCmp("==", eCur(), eInt(1))), sFilter(eCmp("==", eCur(), eVar("missing"))), sFilter(eExists(eCur(sKey("a")))),
 		sFilter(eIsUnknown(eCmp("==", eCur(sKey("a")), eInt(1)))), sFilter(eCmp("==", eCur(sKey("a"), sMethod("double")), eInt(1))),
